@@ -21,3 +21,19 @@ func verifHarness_C05_sysSchedules() {
 	r.assertC05()
 	vReach()
 }
+
+
+// Three messages over two partitions in the order p0, p1, p0 (sequence numbers of one
+// partition must not be disturbed by another partition's traffic), with at most one fault.
+func verifHarness_C05_sysInterleavedPartitions() {
+	c := vProdCfg{n: 3, parts: 2, brokers: 1 + vChoose("brokers", 2), faults: 1, faultMenu: vfKinds, delay: 0,
+		partsOf: []int32{0, 1, 0}, idem: true, retryMax: 1 + vChoose("retryMax", 2)}
+	if vChoose("flush", 2) == 1 {
+		c.flushMessages, c.flushFrequency = 2, true
+	}
+	c.class = vSprintf("interleaved,retryMax=%d,idem=true", c.retryMax)
+	r := vRunProducer(c)
+	r.assertC05()
+	r.assertC01()
+	vReach()
+}
